@@ -217,7 +217,8 @@ def main(argv=None):
     # ---- evidence
     cov = mod.coverage(agg, tier) if hasattr(mod, "coverage") else dict(agg)
     cov.update(pre)
-    cov.setdefault("samples", samples or [{"note": "no sample recorded"}])
+    if not cov.get("samples"):
+        cov["samples"] = samples or [{"note": "no sample recorded"}]
     cov["functions_encoded"] = sorted(funcs)[:400]
     cov["functions_encoded_count"] = len(funcs)
     cov["items"] = len(items)
